@@ -21,6 +21,8 @@ func main() {
 		cmdProve(os.Args[2:])
 	case "check":
 		cmdCheck(os.Args[2:])
+	case "dump":
+		cmdDump(os.Args[2:])
 	case "replay":
 		cmdReplay(os.Args[2:])
 	default:
@@ -30,6 +32,90 @@ func main() {
 }
 
 // script builds the SMT-LIB script of an obligation.
+// strExtensionality: for every equality between strings in the goal, the extensionality instance
+// (same length and same bytes => equal). Str is an uninterpreted sort, so this is what "==" on
+// strings means; it is instantiated only where a goal needs it.
+func strExtensionality(goal *Term) []*Term {
+	var out []*Term
+	seen := map[int]bool{}
+	var rec func(t *Term)
+	rec = func(t *Term) {
+		if seen[t.id] {
+			return
+		}
+		seen[t.id] = true
+		if t.Op == "=" && len(t.Args) == 2 && t.Args[0].Sort == SStr && !t.hasBV {
+			a, b := t.Args[0], t.Args[1]
+			k := B.BoundVar("k", SBV(64))
+			same := Forall([]*Term{k}, Implies(And(BVSle(BVInt(0, 64), k), BVSlt(k, strLen(a))), Eq(strAt(a, k), strAt(b, k))))
+			out = append(out, Implies(And(Eq(strLen(a), strLen(b)), same), t))
+		}
+		for _, x := range t.Args {
+			rec(x)
+		}
+	}
+	rec(goal)
+	return out
+}
+
+// modelQueries: the input terms plus every read of the initial heap / input strings occurring in the VC,
+// so that a counterexample describes the objects reachable from the parameters.
+func modelQueries(o *Obligation, asserts []*Term) []*Term {
+	if o.IsCover {
+		return nil
+	}
+	out := append([]*Term{}, o.Inputs...)
+	seen := map[int]bool{}
+	for _, t := range out {
+		seen[t.id] = true
+	}
+	var extra []*Term
+	var rootIsInit func(t *Term) bool
+	rootIsInit = func(t *Term) bool {
+		for t.Op == "select" {
+			t = t.Args[0]
+		}
+		return len(t.Args) == 0 && (strings.HasPrefix(t.Op, "H.") || strings.HasPrefix(t.Op, "ghost0."))
+	}
+	visited := map[int]bool{}
+	var rec func(t *Term)
+	rec = func(t *Term) {
+		if visited[t.id] || len(extra) > 80 {
+			return
+		}
+		visited[t.id] = true
+		for _, a := range t.Args {
+			rec(a)
+		}
+		if t.hasBV || seen[t.id] {
+			return
+		}
+		switch {
+		case t.Op == "select" && rootIsInit(t) && !strings.HasPrefix(t.Sort, "(Array"):
+			seen[t.id] = true
+			extra = append(extra, t)
+			if !t.Args[1].IsConst() && !seen[t.Args[1].id] {
+				seen[t.Args[1].id] = true
+				extra = append(extra, t.Args[1])
+			}
+		case (t.Op == "str.len" || t.Op == "str.at") && len(t.Args) > 0 && len(t.Args[0].Args) == 0 && strings.HasPrefix(t.Args[0].Op, "in."):
+			seen[t.id] = true
+			extra = append(extra, t)
+			if t.Op == "str.at" && !t.Args[1].IsConst() && !seen[t.Args[1].id] {
+				seen[t.Args[1].id] = true
+				extra = append(extra, t.Args[1])
+			}
+		case len(t.Args) == 0 && strings.HasPrefix(t.Op, "ghost0."):
+			seen[t.id] = true
+			extra = append(extra, t)
+		}
+	}
+	for _, a := range asserts {
+		rec(a)
+	}
+	return append(out, extra...)
+}
+
 func hasQuant(t *Term, memo map[int]bool) bool {
 	if v, ok := memo[t.id]; ok {
 		return v
@@ -64,6 +150,9 @@ func (p *Proof) scriptQ(o *Obligation, qfOnly bool) string {
 	if !o.IsCover {
 		asserts = append(asserts, Not(o.Goal))
 	}
+	if !o.IsCover {
+		asserts = append(asserts, strExtensionality(o.Goal)...)
+	}
 	asserts = append(asserts, u2iAxioms(asserts)...)
 	used := usedSymbols(asserts)
 	// literal facts for literals that occur
@@ -78,7 +167,11 @@ func (p *Proof) scriptQ(o *Obligation, qfOnly bool) string {
 	}
 	lits = append(lits, strLitDistinct(used)...)
 	asserts = append(lits, asserts...)
-	return Script(asserts, nil, o.Inputs)
+	qs := modelQueries(o, asserts)
+	if !qfOnly {
+		o.Queries = qs
+	}
+	return Script(asserts, nil, qs)
 }
 
 func discharge(results []*ProofResult, timeoutS int, all bool, verbose bool) {
@@ -133,7 +226,7 @@ func discharge(results []*ProofResult, timeoutS int, all bool, verbose bool) {
 					j.o.Status = "disagree"
 				}
 				if best.Status == "sat" {
-					j.o.Model = parseModel(best.Output, j.o.Inputs)
+					j.o.Model = parseModelPos(best.Output, j.o.Queries)
 				}
 				_ = rs
 				if best.Status != "sat" && best.Status != "unsat" && len(j.o.Parts) > 0 {
@@ -156,7 +249,7 @@ func discharge(results []*ProofResult, timeoutS int, all bool, verbose bool) {
 							j.o.Status = b2.Status
 							j.o.Solver = b2.Solver
 							if b2.Status == "sat" {
-								j.o.Model = parseModel(b2.Output, pt.Inputs)
+								j.o.Model = parseModelPos(b2.Output, pt.Queries)
 								j.o.Script = pt.Script
 							}
 							break
@@ -308,6 +401,66 @@ func cmdProve(args []string) {
 	fmt.Printf("obligations ok=%d failed=%d  total %.1fs\n", nOK, nBad, time.Since(t0).Seconds())
 }
 
+
+// describeTerm prints a term without abbreviations (bounded).
+func describeTerm(t *Term) string {
+	var rec func(t *Term, d int) string
+	rec = func(t *Term, d int) string {
+		if len(t.Args) == 0 {
+			return t.Op
+		}
+		if d > 6 {
+			return "..."
+		}
+		s := "(" + t.Op
+		for _, a := range t.Args {
+			s += " " + rec(a, d+1)
+		}
+		return s + ")"
+	}
+	return rec(t, 0)
+}
+
+// parseModelPos pairs the values of a get-value answer with the queried terms by position.
+func parseModelPos(out string, queries []*Term) map[string]string {
+	m := map[string]string{}
+	i := strings.Index(out, "\n")
+	if i < 0 {
+		return m
+	}
+	toks := sexpTokens(out[i+1:])
+	depth := 0
+	var cur []string
+	k := 0
+	for _, t := range toks {
+		switch t {
+		case "(":
+			depth++
+			if depth >= 2 {
+				cur = append(cur, t)
+			}
+		case ")":
+			if depth >= 2 {
+				cur = append(cur, t)
+			}
+			depth--
+			if depth == 1 && len(cur) > 0 {
+				inner := cur[1 : len(cur)-1]
+				if len(inner) >= 2 && k < len(queries) {
+					_, rest := splitFirstSexp(inner)
+					m[describeTerm(queries[k])] = strings.Join(rest, " ")
+				}
+				k++
+				cur = nil
+			}
+		default:
+			if depth >= 2 {
+				cur = append(cur, t)
+			}
+		}
+	}
+	return m
+}
 
 // parseModel extracts (term value) pairs from a get-value answer.
 func parseModel(out string, inputs []*Term) map[string]string {
